@@ -221,6 +221,9 @@ func judgeCoff(cc coffCase, rs []*core.Result, wantC08, wantC09 bool) core.Verdi
 			seen[g] = true
 			if defined[g] {
 				off := findSentinel(rf.Out, cc.labelSentry[g])
+				if cc.labelSentry[g] == -1 {
+					off = len(rf.Out) // a label with nothing behind it: located at the end of the flat binary
+				}
 				expDef = append(expDef, exp{g, off})
 			} else {
 				expUndef = append(expUndef, g)
@@ -405,17 +408,21 @@ func c08Leftover(r *core.Run, tier string) {
 
 func init() {
 	register(&Property{
-		ID:        "C08",
-		Custom:    c08Leftover,
-		Scenarios: func(tier string) []*core.Scenario { return []*core.Scenario{coffScenario(tier, true, false)} },
+		ID:     "C08",
+		Custom: c08Leftover,
+		Scenarios: func(tier string) []*core.Scenario {
+			return []*core.Scenario{coffScenario(tier, true, false), coffShapesScenario(true, false)}
+		},
 		Assumptions: []string{
 			"structure is judged by an independent strict COFF reader written from the PE/COFF specification (all offsets/counts bounds-checked) and additionally by Go's debug/pe",
 			"the .text PointerToRelocations field is allowed to be non-zero while NumberOfRelocations is 0 (NASK does the same)",
 		},
 	})
 	register(&Property{
-		ID:        "C09",
-		Scenarios: func(tier string) []*core.Scenario { return []*core.Scenario{coffScenario(tier, false, true)} },
+		ID: "C09",
+		Scenarios: func(tier string) []*core.Scenario {
+			return []*core.Scenario{coffScenario(tier, false, true), coffShapesScenario(false, true)}
+		},
 		Assumptions: []string{
 			"the flat binary of the same source without the [FORMAT] line is the reference for .text; label offsets are located in it by sentinels",
 			"a [FILE] name longer than 18 bytes must be recoverable (consecutive aux records); plain truncation is reported",
